@@ -93,7 +93,13 @@ def target_matrices(case):
             m = {}
             for a in q:
                 for b in q:
-                    m[a + b] = (1 - lam) * q[a] * q[b] / tot / tot + (lam * q[a] / tot if a == b else 0.0)
+                    if tgt.get("disassortative"):
+                        # less weight on like-with-like pairings than neutral mixing has (still full support)
+                        m[a + b] = q[a] * q[b] / tot / tot * ((1 - lam) if a == b else 1.0)
+                    else:
+                        m[a + b] = (1 - lam) * q[a] * q[b] / tot / tot + (lam * q[a] / tot if a == b else 0.0)
+            z = sum(m.values()) or 1.0
+            m = {k_: v_ / z for k_, v_ in m.items()}
             mats[cname] = m
         return mats, {}
     holes = {}
